@@ -64,8 +64,18 @@ func extVrtIntRange(fr *frame, args []value) value {
 	if lo == hi {
 		return int(lo)
 	}
+	c := func(v *smt.Term) *smt.Term {
+		return smt.And(smt.Bin(smt.OpSle, smt.Const(64, uint64(lo)), v), smt.Bin(smt.OpSle, v, smt.Const(64, uint64(hi))))
+	}
+	if hi > lo && hi-lo < fdCap {
+		dom := make([]uint64, 0, hi-lo+1)
+		for x := lo; x <= hi; x++ {
+			dom = append(dom, uint64(x))
+		}
+		return p.newDomVar(tagOf(args[0]), 64, dom, c)
+	}
 	v := p.newVar(tagOf(args[0]), 64)
-	p.assume(smt.And(smt.Bin(smt.OpSle, smt.Const(64, uint64(lo)), v), smt.Bin(smt.OpSle, v, smt.Const(64, uint64(hi)))))
+	p.assume(c(v))
 	return v
 }
 
@@ -87,12 +97,45 @@ func extVrtByteIn(fr *frame, args []value) value {
 	if len(alpha) == 1 {
 		return alpha[0]
 	}
-	v := p.newVar(tagOf(args[0]), 8)
-	c := smt.False
+	dom := make([]uint64, 0, len(alpha))
+	seen := map[byte]bool{}
 	for k := 0; k < len(alpha); k++ {
-		c = smt.Or(c, smt.Eq(v, smt.Const(8, uint64(alpha[k]))))
+		if !seen[alpha[k]] {
+			seen[alpha[k]] = true
+			dom = append(dom, uint64(alpha[k]))
+		}
 	}
-	p.assume(c)
+	return p.newDomVar(tagOf(args[0]), 8, dom, func(v *smt.Term) *smt.Term {
+		c := smt.False
+		for _, x := range dom {
+			c = smt.Or(c, smt.Eq(v, smt.Const(8, x)))
+		}
+		return c
+	})
+}
+
+// newDomVar creates a variable with an explicit finite domain; the domain
+// constraint goes to the solver's path condition, the domain itself to the
+// finite-domain state.
+func (p *pathCtx) newDomVar(tag string, w uint8, dom []uint64, cons func(*smt.Term) *smt.Term) *smt.Term {
+	_, existed := p.vars[strings.NewReplacer("|", "!", "\\", "!", " ", "_").Replace(tag)]
+	v := p.newVarDom(tag, w, dom)
+	if !existed {
+		p.addDomainPC(cons(v))
+		// keep the model inside the domain
+		in := false
+		cur := p.model[v.Name]
+		for _, d := range dom {
+			if d == cur {
+				in = true
+				break
+			}
+		}
+		if !in {
+			p.model[v.Name] = dom[0]
+			p.memo = map[*smt.Term]uint64{}
+		}
+	}
 	return v
 }
 
@@ -102,8 +145,16 @@ func extVrtChoice(fr *frame, args []value) value {
 	if n <= 1 {
 		return 0
 	}
+	c := func(v *smt.Term) *smt.Term { return smt.Bin(smt.OpUlt, v, smt.Const(64, uint64(n))) }
+	if n <= fdCap {
+		dom := make([]uint64, n)
+		for k := range dom {
+			dom[k] = uint64(k)
+		}
+		return p.newDomVar(tagOf(args[0]), 64, dom, c)
+	}
 	v := p.newVar(tagOf(args[0]), 64)
-	p.assume(smt.Bin(smt.OpUlt, v, smt.Const(64, uint64(n))))
+	p.assume(c(v))
 	return v
 }
 
